@@ -50,7 +50,7 @@ def run(ctx):
     D.rule_segment_plumbing(res, "C01-R4", dm)
     from rules import c04
     for o in c04.run(ctx).obligations:
-        if o["rule"] == "C04-R3" and o["key"].startswith("error-bits"):
+        if o["rule"] == "C04-R3" and o["key"].startswith(("error-bits", "invalid-only-for-protocol-reasons")):
             res.check(o["ok"], "C01-R6", o["key"], o["loc"], o["detail"], o["detail"])
     res.floor("C01-R6", 2)
     # what the encoder writes into the two headers, the decoder reads back: get(set(v)) == v for every field of the frame header and the
@@ -62,6 +62,13 @@ def run(ctx):
             res.check(o.ok, "C01-R8", o.key, o.loc, o.detail)
     accessors.require_supported(ast)
     res.floor("C01-R8", 12)
+    # the frames arrive numbered the way the reassembler expects them: each frame takes the previous counter + 1 modulo 2^16 (no value skipped or
+    # repeated), else the segments of a message that straddles the irregular step are rejected and the message is never delivered (C09-R1/R2)
+    res.rule("C01-R9", "consecutive frame counters: every pushed frame is stamped with the pre-incremented 16-bit counter, whose only writers are that "
+                        "increment and the resets (shared with C09-R1/R2) — the decoder accepts a continuation only at counter + 1 mod 2^16")
+    E.rule_counter_writers(res, "C01-R9", m)
+    E.rule_frame_stamped(res, "C01-R9", m)
+    res.floor("C01-R9", 3)
     res.floor("C01-R1", 1, n1)
     res.floor("C01-R4", 25)
     res.floor("C01-R2", 9)
